@@ -74,3 +74,87 @@ package roundrobin
 //@   ensures new_record: !old(rbMember(rb, u)) && result == nil ==> len(rb.servers) == old(len(rb.servers)) + 1 && sameID(u, rb.servers[len(rb.servers)-1].url) && rb.servers[len(rb.servers)-1].origWeight == weight && rb.servers[len(rb.servers)-1].curWeight == weight
 //@   ensures failure_keeps_records: result != nil ==> len(rb.servers) == old(len(rb.servers))
 //@   ensures member_after: result == nil ==> rbMember(rb, u)
+
+//@ func (*Rebalancer).removeServer
+//@   props C02 C10
+//@   holds rb.mtx
+//@   requires rbPoolOK(rb) && rbUniq(rb) && u != nil
+//@   modifies everything
+//@   ensures keeps_pool_ok: rbPoolOK(rb)
+//@   ensures keeps_uniq: rbUniq(rb)
+//@   ensures unknown_fails: !old(rbMember(rb, u)) ==> result != nil && calls(rb.next.RemoveServer) == 0
+//@   ensures failure_changes_nothing: result != nil ==> len(rb.servers) == old(len(rb.servers)) && (forall i int :: 0 <= i && i < len(rb.servers) ==> rb.servers[i] == old(rb.servers[i]))
+//@   ensures lock_step: result == nil ==> calls(rb.next.RemoveServer) == 1 && callarg(rb.next.RemoveServer, 0, 0) == u && callres(rb.next.RemoveServer, 0, 0) == nil
+//@   ensures removed: result == nil ==> len(rb.servers) == old(len(rb.servers)) - 1 && !rbMember(rb, u)
+//@   ensures spliced: result == nil ==> (exists k int :: 0 <= k && k < old(len(rb.servers)) && sameID(u, old(rb.servers[k]).url) && (forall i int :: 0 <= i && i < k ==> rb.servers[i] == old(rb.servers[i])) && (forall i int :: k <= i && i < len(rb.servers) ==> rb.servers[i] == old(rb.servers[i+1])))
+
+//@ func (*Rebalancer).RemoveServer
+//@   props C02 C10
+//@   atomic rb.mtx
+//@   requires u != nil
+//@   modifies everything
+//@   ensures unknown_fails: !old(rbMember(rb, u)) ==> result != nil
+//@   ensures failure_changes_nothing: result != nil ==> len(rb.servers) == old(len(rb.servers)) && (forall i int :: 0 <= i && i < len(rb.servers) ==> rb.servers[i] == old(rb.servers[i]))
+//@   ensures removed: result == nil ==> len(rb.servers) == old(len(rb.servers)) - 1 && !rbMember(rb, u)
+
+//@ func (*Rebalancer).reset
+//@   props C02 C10
+//@   holds rb.mtx
+//@   requires rbPoolOK(rb) && rbUniq(rb)
+//@   modifies everything
+//@   ensures keeps_records: len(rb.servers) == old(len(rb.servers)) && (forall i int :: 0 <= i && i < len(rb.servers) ==> rb.servers[i] == old(rb.servers[i]) && rb.servers[i].origWeight == old(rb.servers[i].origWeight))
+//@   ensures weights_restored: forall i int :: 0 <= i && i < len(rb.servers) ==> rb.servers[i].curWeight == rb.servers[i].origWeight
+//@   ensures balancer_told: calls(rb.next.UpsertServer) == 0 || len(rb.servers) > 0
+//@   ensures ratings_sized: len(rb.ratings) == len(rb.servers)
+//@   loop 1 invariant -1 <= rangeindex && rangeindex < len(rb.servers) && rbPoolOK(rb)
+//@   loop 1 invariant len(rb.servers) == old(len(rb.servers)) && (forall i int :: 0 <= i && i < len(rb.servers) ==> rb.servers[i] == old(rb.servers[i]) && rb.servers[i].origWeight == old(rb.servers[i].origWeight))
+//@   loop 1 invariant forall i int :: 0 <= i && i <= rangeindex ==> rb.servers[i].curWeight == rb.servers[i].origWeight
+
+//@ func (*Rebalancer).UpsertServer
+//@   props C02 C10
+//@   atomic rb.mtx
+//@   requires u != nil
+//@   modifies everything
+//@   ensures success_member: result == nil ==> rbMember(rb, u)
+//@   ensures existing_no_new_record: old(rbMember(rb, u)) && result == nil ==> len(rb.servers) == old(len(rb.servers))
+//@   ensures new_record: !old(rbMember(rb, u)) && result == nil ==> len(rb.servers) == old(len(rb.servers)) + 1
+//@   ensures failure_keeps_records: result != nil ==> len(rb.servers) == old(len(rb.servers))
+//@   ensures weights_restored: result == nil ==> (forall i int :: 0 <= i && i < len(rb.servers) ==> rb.servers[i].curWeight == rb.servers[i].origWeight)
+//@   ensures balancer_first: calls(rb.next.UpsertServer) >= 1 && callarg(rb.next.UpsertServer, 0, 0) == u
+
+//@ func (*Rebalancer).Servers
+//@   props C02 C11
+//@   atomic rb.mtx
+//@   modifies everything
+//@   ensures delegates: calls(rb.next.Servers) == 1 && result == callres(rb.next.Servers, 0, 0)
+
+//@ func (*Rebalancer).recordMetrics
+//@   props C02 C10
+//@   atomic rb.mtx
+//@   requires u != nil
+//@   modifies everything
+//@   ensures records_kept: len(rb.servers) == old(len(rb.servers)) && (forall i int :: 0 <= i && i < len(rb.servers) ==> rb.servers[i] == old(rb.servers[i]) && rb.servers[i].curWeight == old(rb.servers[i].curWeight) && rb.servers[i].origWeight == old(rb.servers[i].origWeight))
+
+//@ iface roundrobin.Meter.Record
+//@   params self code latency
+//@   modifies everything
+//@ iface roundrobin.Meter.IsReady
+//@   params self
+//@   modifies everything
+//@ iface roundrobin.Meter.Rating
+//@   params self
+//@   modifies everything
+
+//@ func (*Rebalancer).ServeHTTP
+//@   props C02 C11 C20
+//@   requires req != nil
+//@   modifies everything
+//@   ensures one_outcome: calls(rb.next.Next.ServeHTTP) + calls(rb.errHandler.ServeHTTP) == 1
+//@   ensures error_only_without_server: calls(rb.errHandler.ServeHTTP) == 1 ==> calls(rb.next.NextServer) == 1 && callres(rb.next.NextServer, 0, 1) != nil
+//@   at_call rb.next.Next.ServeHTTP routed_to_selection: (calls(rb.next.NextServer) == 1 && callres(rb.next.NextServer, 0, 1) == nil && arg1.URL == callres(rb.next.NextServer, 0, 0)) || (calls(rb.next.NextServer) == 0 && callres(GetBackend, 0, 1) && sameID(arg1.URL, callres(GetBackend, 0, 0)))
+//@   at_call rb.next.Next.ServeHTTP fresh_url: fresh(arg1.URL)
+
+//@ func (*Rebalancer).adjustWeights
+//@   props C10
+//@   atomic rb.mtx
+//@   modifies everything
